@@ -445,6 +445,7 @@ func runC15(p *core.Prog, r *core.Report) {
 		}
 	})
 	r.Guard("C15.R6", "index-file", "index file round trip", func() { checkIndexFileCodec(p, r, "C15.R6") })
+	r.Guard("C15.R6", "precomputed-bitmap", "same expression on keys and on stored bitmaps", func() { checkPrecomputedBitmap(p, r) })
 	r.Guard("C15.R6", "index-per-module", "one index per index module", func() {
 		fn := p.Func(pkgCache, "Engine.EndOfStream")
 		var writes []*ssa.Call
@@ -656,4 +657,140 @@ func checkSharedBitmaps(p *core.Prog, r *core.Report, rule string) {
 			core.Undecide("only %d mutating bitmap call sites found", n)
 		}
 	})
+}
+
+// checkPrecomputedBitmap (C15.R6): a module's block filter is evaluated either block by block on the keys or, when the
+// segment's index file exists, once on the stored bitmaps.  Both must use the same expression: the bitmap handed to
+// NewBlockIndex is, on every path, nil or the result of RoaringBitmapsApply(<the very expression passed to
+// NewBlockIndex>, <the indices of the very module passed to NewBlockIndex>).  A bitmap taken from a local cache is
+// accepted only when every entry stored in that cache is such a result and the cache key is computed from the query
+// string that was parsed into the expression (not from a raw request field: a query given through params resolves to a
+// different string).
+func checkPrecomputedBitmap(p *core.Prog, r *core.Report) {
+	fn := p.Func(pkgPipe, "Pipeline.BuildModuleExecutors")
+	r.Touch(core.FuncName(fn))
+	nbi := p.FuncObj(pkgIndex, "NewBlockIndex")
+	apply := p.FuncObj(pkgSqe, "RoaringBitmapsApply")
+	parse := p.FuncObj(pkgSqe, "Parse")
+	calls := core.FindInstrs(fn, core.IsCallTo(nbi))
+	if len(calls) == 0 {
+		core.Undecide("BuildModuleExecutors: no NewBlockIndex call")
+	}
+	sameVal := func(a, b ssa.Value) bool {
+		return a == b || sameExpr(a, b, 4)
+	}
+	for i, c := range calls {
+		args := c.(ssa.CallInstruction).Common().Args
+		expr, modName, bitmap := args[0], args[1], args[2]
+		// the string parsed into expr
+		var parsed ssa.Value
+		for v := range core.OperandSlice(expr) {
+			if pc, ok := v.(*ssa.Call); ok && core.CommonCallee(pc.Common()) == parse {
+				parsed = pc.Call.Args[len(pc.Call.Args)-1]
+			}
+		}
+		okApply := func(v ssa.Value) (bool, string) {
+			ac, ok := v.(*ssa.Call)
+			if !ok || core.CommonCallee(ac.Common()) != apply {
+				return false, "not a RoaringBitmapsApply result"
+			}
+			if !sameVal(ac.Call.Args[0], expr) {
+				return false, "RoaringBitmapsApply on another expression than the one given to NewBlockIndex"
+			}
+			// indices looked up by the same module name
+			okIdx := false
+			for x := range core.OperandSlice(ac.Call.Args[1]) {
+				if lk, ok := x.(*ssa.Lookup); ok && sameVal(lk.Index, modName) {
+					okIdx = true
+				}
+			}
+			if !okIdx {
+				return false, "indices not looked up by the module name given to NewBlockIndex"
+			}
+			return true, ""
+		}
+		var bad []string
+		seen := map[ssa.Value]bool{}
+		var leaf func(v ssa.Value)
+		leaf = func(v ssa.Value) {
+			if seen[v] {
+				return
+			}
+			seen[v] = true
+			switch x := v.(type) {
+			case *ssa.Phi:
+				for _, e := range x.Edges {
+					leaf(e)
+				}
+			case *ssa.Const:
+				if !x.IsNil() {
+					bad = append(bad, "non-nil constant")
+				}
+			case *ssa.UnOp:
+				if al, ok := x.X.(*ssa.Alloc); ok && x.Op == token.MUL {
+					for _, st := range core.StoresTo(al) {
+						leaf(st.Val)
+					}
+					return
+				}
+				bad = append(bad, "loaded from "+x.X.String())
+			case *ssa.Extract:
+				leaf(x.Tuple)
+			case *ssa.Lookup:
+				// a local cache
+				mm, ok := x.X.(*ssa.MakeMap)
+				if !ok {
+					bad = append(bad, "looked up in a map that is not local to the function")
+					return
+				}
+				nUpd := 0
+				for _, ref := range *mm.Referrers() {
+					mu, ok := ref.(*ssa.MapUpdate)
+					if !ok {
+						continue
+					}
+					nUpd++
+					okV := false
+					for lv := range core.OperandSlice(mu.Value) {
+						if ok2, _ := okApply(lv); ok2 {
+							okV = true
+						}
+					}
+					if !okV {
+						bad = append(bad, "cache entry that is not RoaringBitmapsApply(expr, indices[module])")
+					}
+					if parsed == nil || !core.OperandSlice(mu.Key)[parsed] {
+						bad = append(bad, "cache key not computed from the parsed query string")
+					}
+					if !sameVal(mu.Key, x.Index) && !sameKeySources(mu.Key, x.Index) {
+						bad = append(bad, "cache read and written under different keys")
+					}
+				}
+				if nUpd == 0 {
+					bad = append(bad, "cache never filled")
+				}
+			case *ssa.Call:
+				if ok, why := okApply(x); !ok {
+					bad = append(bad, why)
+				}
+			default:
+				bad = append(bad, fmt.Sprintf("%T", v))
+			}
+		}
+		leaf(bitmap)
+		r.Check(len(bad) == 0, "C15.R6", fmt.Sprintf("BuildModuleExecutors/precomputed-bitmap#%d", i+1), "the precomputed bitmap given to a module's block index is nil or the stored index evaluated with that module's own expression on that module's own index (a shared bitmap must be keyed by the resolved query)", strings.Join(bad, "; "), p.Pos(c.Pos()))
+	}
+}
+
+func sameKeySources(a, b ssa.Value) bool {
+	sa, sb := core.OperandSlice(a), core.OperandSlice(b)
+	for v := range sa {
+		switch v.(type) {
+		case *ssa.Call, *ssa.UnOp, *ssa.Parameter:
+			if !sb[v] {
+				return false
+			}
+		}
+	}
+	return true
 }
